@@ -33,8 +33,13 @@ fn case(src: &mut Src, ctx: &mut Ctx) -> Result<(), Fail> {
             return Err(Fail::new(key, format!("the world is quiescent at t={}us but the transfer/shutdown is incomplete: {}", w.now_us, st)));
         }
         End::EventCap | End::TimeCap => {
-            let idle = w.now_us - w.stats.last_progress_us;
-            let faults_over = w.stats.frames[0] >= w.cfg.link.fault_frames && w.stats.frames[1] >= w.cfg.link.fault_frames;
+            // "If the network eventually stops losing packets ...": the clock of the no-progress
+            // rule starts when BOTH directions have left their fault phase (fault_end_us = instant
+            // of the first frame carried reliably after the last faulty one), not at the last
+            // progress made while the link was still dropping frames
+            let faults_over = w.stats.frames[0] >= w.cfg.link.fault_frames && w.stats.frames[1] >= w.cfg.link.fault_frames && w.stats.fault_end_us > 0;
+            let since = w.stats.last_progress_us.max(w.stats.fault_end_us);
+            let idle = w.now_us - since;
             if faults_over && idle > 1800 * 1_000_000 && end == End::TimeCap {
                 let st = w.describe_state();
                 let ign = w.acks_ignored();
